@@ -1,17 +1,19 @@
 ---- MODULE Strat ----
 EXTENDS Integers, Sequences, FiniteSets, TLC, PairProps
-CONSTANTS NC, NL, MaxIter1, MaxIter2
+CONSTANTS NC, NL, MaxIter1, MaxIter2,
+          StrictCap, StepCap, RelaxedCap,   \* largest tolerance of the default / per-step / relaxed schedule (dE classes or units)
+          DeTop                             \* dE values range over 1..DeTop
 Colour == 0..(NC-1)
 None == -1
-\* tolerance classes: 1 <=2.5, 2 <=3.0 (step cap), 3 <=5.0 (strict cap), 4 <=15 (relaxed cap), 5 beyond
-StrictCap == 3  StepCap == 2  RelaxedCap == 4   \* classes: 1 <=2.5, 2 <=3.0, 3 <=5.0, 4 <=15
+\* MC_Strat.cfg uses dE classes: 1 <=2.5, 2 <=3.0 (StepCap), 3 <=5.0 (StrictCap), 4 <=15 (RelaxedCap), 5 beyond;
+\* the trace specification TrStrat.tla uses reference dE in 1e-4 units.
 Pairs == {p \in Colour \X Colour : p[1] < p[2]}
 VARIABLES mode, minL, targetL, con, de, memo, pc, cur, iter, recRes, aRes, aOk, gres, result, success, r1, s1
 vars == <<mode,minL,targetL,con,de,memo,pc,cur,iter,recRes,aRes,aOk,gres,result,success,r1,s1>>
 Init == /\ mode = 1                      \* run mode 1 first, then mode 2 on the same oracle (C16a)
         /\ targetL \in 1..(NL-1) /\ minL \in 1..targetL
         /\ con \in [Colour -> 0..(NL-1)]
-        /\ \E up \in [Pairs -> 1..5] :
+        /\ \E up \in [Pairs -> 1..DeTop] :
               de = [a \in Colour |-> [b \in Colour |-> IF a = b THEN 0 ELSE IF a < b THEN up[<<a,b>>] ELSE up[<<b,a>>]]]
         /\ memo = [x \in {} |-> 0]
         /\ pc = "dispatch" /\ cur = 0 /\ iter = 0 /\ recRes = None /\ aRes = None /\ aOk = FALSE /\ gres = None
